@@ -72,8 +72,19 @@ type txRun struct {
 	prevSig map[string]*pb.SignatureInfo
 	step    int
 	acctOK  bool
+	nAdm    int // admission questions asked so far
 	// pendingKnown is reported at the end of the run if nothing else fails
-	pendingKnown *Violation
+	pendingKnowns []*Violation
+}
+
+// notePending remembers the first violation of each known-finding clause.
+func (r *txRun) notePending(vi *Violation) {
+	for _, p := range r.pendingKnowns {
+		if p.Clause == vi.Clause {
+			return
+		}
+	}
+	r.pendingKnowns = append(r.pendingKnowns, vi)
 }
 
 func (r *txRun) viol(clause, format string, a ...interface{}) *Violation {
@@ -90,6 +101,34 @@ func semanticBytes(tx *lpb.Transaction) []byte {
 		c.HDInfo = nil // an empty sub-message says the same as an absent one
 	}
 	return detMarshal(c)
+}
+
+// compactAdjacentBytes moves the byte string of every (x, empty) / (empty, x) pair of adjacent byte
+// fields that the version 1 / 2 digest leaves out when empty into the first field of the pair. Two
+// transactions that become equal under this differ only in where such a byte string sits.
+func compactAdjacentBytes(tx *lpb.Transaction) *lpb.Transaction {
+	c := CloneTx(tx)
+	pair := func(x, y *[]byte) {
+		if len(*x) == 0 && len(*y) > 0 {
+			*x, *y = *y, nil
+		}
+		if len(*x) == 0 {
+			*x = nil
+		}
+		if len(*y) == 0 {
+			*y = nil
+		}
+	}
+	for _, in := range c.TxInputs {
+		pair(&in.FromAddr, &in.Amount)
+	}
+	for _, in := range c.TxInputsExt {
+		pair(&in.Key, &in.RefTxid)
+	}
+	for _, o := range c.TxOutputsExt {
+		pair(&o.Key, &o.Value)
+	}
+	return c
 }
 
 // detMarshal is proto.Marshal with deterministic map order.
@@ -172,7 +211,12 @@ func ExecTx(plan *TxPlan, rc *RunCtx) *Violation {
 			return v
 		}
 	}
-	return r.pendingKnown
+	// several known findings may have been seen: report one, chosen by the plan (so that every one of
+	// them is reported by some run and each run stays a pure function of its plan)
+	if len(r.pendingKnowns) > 0 {
+		return r.pendingKnowns[int(plan.Seed%uint64(len(r.pendingKnowns)))]
+	}
+	return nil
 }
 
 func (r *txRun) spendable(addr string) []UtxoRef {
@@ -272,7 +316,7 @@ func (r *txRun) buildForm(f *TxForm) (*lpb.Transaction, []*Acct, *Acct) {
 		if err != nil {
 			return nil, nil, nil
 		}
-		sp := &TxSpec{From: from, Version: 3, Invoke: resp}
+		sp := &TxSpec{From: from, Version: int32(f.Ver), Invoke: resp}
 		need := big.NewInt(resp.GasUsed)
 		got := new(big.Int)
 		for _, u := range r.spendable(from.Addr) {
@@ -314,11 +358,22 @@ func (r *txRun) buildForm(f *TxForm) (*lpb.Transaction, []*Acct, *Acct) {
 // admitted reports whether the node would admit tx: VerifyTx, and if that passes, SubmitTx on a copy
 // of the node (so that the live node is not changed by a mutant).
 func (r *txRun) admitted(tx *lpb.Transaction) bool {
+	// Admission is what the public entry point (Chain.SubmitTx) does. State.VerifyTx is only a cheap
+	// pre-filter, and only where it refuses WITH an error; even then one refusal in thirty-two is put
+	// through SubmitTx as well, so the oracle never rests on how SubmitTx reads VerifyTx's answer.
 	ok, err := r.n.S.VerifyTx(CloneTx(tx))
-	if err != nil || !ok {
+	r.nAdm++
+	if err != nil && (r.nAdm+int(r.plan.Seed%32))%32 != 0 {
 		return false
 	}
-	r.rc.St.Probes["mutant-passed-verifytx"]++
+	switch {
+	case err != nil:
+		r.rc.St.Probes["verifytx-refusal-cross-checked-by-submit"]++
+	case !ok:
+		r.rc.St.Probes["verifytx-false-without-error"]++
+	default:
+		r.rc.St.Probes["mutant-passed-verifytx"]++
+	}
 	tw, err := r.n.Twin()
 	if err != nil {
 		panic(err)
@@ -337,7 +392,16 @@ func (r *txRun) noteDigest(tx *lpb.Transaction, what string) *Violation {
 		a, b := &lpb.Transaction{}, &lpb.Transaction{}
 		proto.Unmarshal([]byte(prev), a)
 		proto.Unmarshal([]byte(sb), b)
-		return r.viol("digest-collision", "two transactions that differ in a covered field share the digest %x (%s): %s  VERSUS  %s", d[:6], what, proto.CompactTextString(a), proto.CompactTextString(b))
+		vi := r.viol("digest-collision", "two transactions that differ in a covered field share the digest %x (%s): %s  VERSUS  %s", d[:6], what, proto.CompactTextString(a), proto.CompactTextString(b))
+		if a.Version < 3 && b.Version < 3 && bytes.Equal(detMarshal(compactAdjacentBytes(a)), detMarshal(compactAdjacentBytes(b))) {
+			// known finding: the version 1 / 2 digest writes values only and leaves out empty byte strings, so
+			// a byte string can move between two adjacent such fields without changing the pre-image
+			vi.Clause = "digest-collision-empty-bytes-omitted-v1v2"
+			r.rc.St.Probes["known-digest-collision-v1v2"]++
+			r.notePending(vi)
+			return nil
+		}
+		return vi
 	}
 	r.digests[string(d)] = sb
 	return nil
@@ -464,7 +528,7 @@ func (r *txRun) doForm(f *TxForm) *Violation {
 				// signature - the node ignores the altered entry (txid malleability), nothing unsigned happens
 				vi.Clause = "signature-list-malleable"
 				r.rc.St.Probes["known-signature-list-malleable"]++
-				r.pendingKnown = vi
+				r.notePending(vi)
 				return nil
 			}
 			return vi
